@@ -159,9 +159,74 @@ CHECKS["C09"] = {
     "assumptions": ASSUME_COMMON,
 }
 
+CHECKS["C05"] = {
+    "level": "exploration",
+    "shards": {"quick": 16, "thorough": 32},
+    "budget": {"quick": 45, "thorough": 300},
+    "rule": "direct calls cs.<type>(bytes) / cs.<type>.dumps(v) / arrays for every built-in integer type and alias "
+            "(expectation table written from the names) x {<, >, !} x boundary, pattern and random values (8-bit types "
+            "and all 1- and 2-byte LEB128 encodings exhaustively; LEB128 values to +-2^70), floats against struct, "
+            "wchar against str.encode; plus generated definitions parsed/dumped after cs.endian was switched on "
+            "already loaded compiled and interpreted structures; every call of the real codec functions is "
+            "additionally compared in situ by a codec monitor; distinct = distinct (type, endian, value) tuples",
+    "anchors": ["types/int.py", "types/packed.py", "types/leb128.py", "types/char.py", "types/wchar.py", "cstruct.py"],
+    "required_reach": ["types/int.py:Int._read", "types/int.py:Int._write", "types/packed.py:Packed._read_array",
+                       "types/packed.py:Packed._write", "types/packed.py:Packed._write_array",
+                       "types/leb128.py:LEB128._read", "types/leb128.py:LEB128._write",
+                       "types/wchar.py:Wchar._read_array", "types/wchar.py:Wchar._write",
+                       "types/char.py:Char._read_array", "<compiled>"],
+    "required_cells": ["int:int24:>", "int:uint128:<", "int:int64:!", "float:float16:>", "wchar:!", "leb:ileb128",
+                       "leb:uleb128", "switch:compiled", "switch:interpreted"],
+    "assumptions": ASSUME_COMMON + ["the native byte orders '@' and '=' are outside the claimed domain"],
+}
+
+CHECKS["C10"] = {
+    "level": "exploration",
+    "shards": {"quick": 16, "thorough": 32},
+    "budget": {"quick": 50, "thorough": 400},
+    "rule": "every well-formed token sequence of the expression grammar with <= 5 tokens over 13 operands (decimal, "
+            "hex, octal, binary, suffixed literals, identifiers a/b/u, constant K, sizeof(uint32)), 10 binary and 2 "
+            "unary operators and parentheses is enumerated completely (about 5*10^5 expressions, spaced and unspaced), "
+            "each under one of three identifier bindings (one where the context shadows the constant); random "
+            "expressions to depth 5/6 and literal form x suffix x value sweeps beyond; every evaluation is compared "
+            "with an independent precedence-climbing evaluator (C semantics, / and % judged for non-negative operands "
+            "only) and re-evaluated on the same object (again, after a failed evaluation, with another context) against "
+            "a fresh object; in-situ evaluations (array lengths, enum values, #defines) are checked by a monitor on "
+            "Expression.evaluate; distinct = distinct (text, binding)",
+    "anchors": ["expression.py"],
+    "required_reach": ["expression.py:Expression.evaluate", "expression.py:Expression.evaluate_exp",
+                       "expression.py:ExpressionTokenizer.tokenize", "types/base.py:BaseArray._read",
+                       "parser.py:TokenParser._enum", "parser.py:TokenParser._constant"],
+    "required_cells": ["exhaustive", "random", "literal-forms", "in-situ"],
+    "exhaustive": {"quick": False, "thorough": False},
+    "assumptions": ASSUME_COMMON + ["the reference evaluator vf/refexpr.py is the C-precedence specification"],
+}
+
 NOT_APPLICABLE = {}
 
 MANIFEST_TEXT = {
+    "C10": {
+        "text": "The real evaluator is run on the complete set of well-formed expressions up to 5 tokens (enumerated "
+                "from the grammar on every run), on random deeper ones and on literal-form sweeps, each judged against "
+                "an independent evaluator and re-evaluated on the same object for repeatability; a monitor on "
+                "Expression.evaluate additionally re-checks every evaluation that happens inside load() and parsing. "
+                "Exhaustive for the <=5-token bound over the stated operand pool, held-on-observed beyond.",
+        "design_ref": "DESIGN.md 4 C10",
+        "note": "/ and % with a negative operand, negative shift counts and division by zero are outside the claimed "
+                "domain and only used for the repeatability part",
+        "technique": "bounded-exhaustive grammar enumeration + reference evaluator + call monitor",
+    },
+    "C05": {
+        "text": "Runtime contracts on the real codec functions (Int/Packed/LEB128/Wchar read+write wrapped from the "
+                "harness, each call compared with int.from_bytes/struct/str.encode/an independent LEB128 codec under "
+                "the endianness current at call time) plus direct API sweeps over all built-in types and aliases x "
+                "{<,>,!} with boundary/pattern/random values, exhaustive for 8-bit types and 1-2 byte LEB128, and "
+                "endianness switches on already loaded compiled and interpreted structures. Held-on-observed.",
+        "design_ref": "DESIGN.md 4 C05",
+        "note": "signedness/width expectations are written from the type names; 'long'/'ulong' are only checked for "
+                "self-consistency",
+        "technique": "call-level codec monitor + value sweeps against independent encoders",
+    },
     "C09": {
         "text": "Recording-stream monitoring of the real readers: each parse is repeated at several start offsets with "
                 "random surrounding bytes, in multi-read histories on one stream and through all input kinds and call "
